@@ -25,7 +25,7 @@ def run(tier, seed):
     if check.coverage.get("panics_injected", 0) == 0:
         raise common.Inconclusive("no panic was injected: the workloads make no format check")
     check.coverage["rule"] = ("a history = a panic injected at the k-th invocation of the caller-supplied format checker of a format-bearing workload (formats spread over properties, allOf / anyOf / "
-                              "not branches and array items; every k reached by the workload, counted in a dry run), recovered by the caller, sometimes followed by a second recovered panic, "
+                              "oneOf / not branches and array items, and recycled parameter / header validators carrying a format; every k reached by the workload, counted in a dry run), recovered by the caller, sometimes followed by a second recovered panic, "
                               "then one call of every class and a seeded random tail. Each later outcome must equal the same call alone with nothing pooled; the pool event stream must satisfy "
                               "the monitor (NoDup / Exclusive). non-trivial = distinct (previous class, class) pairs executed after a panic.")
     check.assumptions = ["panics are injected through a wrapper of strfmt.Default whose Validates panics at the k-th call", "alone/fresh reference as in C04"]
